@@ -100,17 +100,57 @@ CLAIMED = {
              "constructs make an obligation inconclusive), the transcribed W3C productions, CrossHair's str model, the grammar-derived "
              "reference decoder. Statement-level grammar, RDF/XML, JSON-LD, TriG, input-source handling are outside the claim.",
         ref="DESIGN.md section 3 C05"),
+    "C03": dict(
+        technique="CrossHair symbolic strings through rdflib's literal writers and readers (per-term text round trip)",
+        text="Partial claim (per-term escaping, the part the property's rationale singles out). For every string up to length 3 (thorough 4): "
+             "nt._quote_encode -> ntriples.unquote, Literal._quote_encode (short and triple-quoted branch) -> SinkParser.strconst with "
+             "exact end-of-token detection before @lang / ^^<iri> / ' .', XML text/attribute escaping against a reference unescaper, and the "
+             "Turtle numeric/boolean shorthand of Literal._literal_n3 re-typed by the grammar for every valid lexical form up to length "
+             "4-5. Document-level structure (bnode inlining, lists, qnames, RDF/XML nesting, JSON-LD) is not claimed.",
+        note="Trusted base: CrossHair 0.0.110's model of Python str/int (counterexamples are replayed outside CrossHair; it has a known "
+             "unsoundness around negative slice bounds on symbolic strings), z3, the %s/str.format shims, the reference decoders/matchers "
+             "written from the W3C/XSD grammars, the regex translator for the R obligations. Strings longer than the stated bound are "
+             "outside the claim; for R obligations the claim is for strings of every length over characters up to U+2FFFF.", ref="DESIGN.md section 3 C03"),
+    "C07": dict(
+        technique="z3 regular-language inclusion on live patterns + CrossHair symbolic strings (n3 text forms); ordering tables by enumeration",
+        text="Partial claim: only the clause 'a term's n3() text read back by the Turtle/SPARQL readers is the same term', for the parts built "
+             "from str kernels: literal lexical forms (length <=3, thorough 4, bare and with @lang/^^iri, both quoting branches), language "
+             "tags (Literal()'s pattern = LANGTAG, within the N3 and SPARQL readers' patterns, any length), generated blank-node labels "
+             "and gate-passing absolute IRIs within the readers' token patterns (any length). Equality/hash/ordering/pickling laws over "
+             "term contents are NOT covered (contents cannot be symbolic); the finite kind-order tables are checked by enumeration.",
+        note="Trusted base: CrossHair 0.0.110's model of Python str/int (counterexamples are replayed outside CrossHair; it has a known "
+             "unsoundness around negative slice bounds on symbolic strings), z3, the %s/str.format shims, the reference decoders/matchers "
+             "written from the W3C/XSD grammars, the regex translator for the R obligations. Strings longer than the stated bound are "
+             "outside the claim; for R obligations the claim is for strings of every length over characters up to U+2FFFF.", ref="DESIGN.md section 3 C07"),
+    "C09": dict(
+        technique="CrossHair over unbounded symbolic ints and short symbolic strings on rdflib's datatype kernels; z3 regex inclusion for lexical spaces",
+        text="Partial claim: the 13 integer-derived datatypes' well-formedness checkers accept every integer of the XSD value space "
+             "(unbounded ints), the boolean lexical mapping on all strings up to length 5, the Gregorian days-in-month kernel for all "
+             "years, idempotence of the normalizedString / token whitespace normalisers on strings up to length 3 (thorough 4), and "
+             "XSD duration / language lexical spaces within the live parsing patterns (any length). Float, double, decimal, date/time "
+             "value mappings and Literal construction itself are out of reach and not claimed.",
+        note="Trusted base: CrossHair 0.0.110's model of Python str/int (counterexamples are replayed outside CrossHair; it has a known "
+             "unsoundness around negative slice bounds on symbolic strings), z3, the %s/str.format shims, the reference decoders/matchers "
+             "written from the W3C/XSD grammars, the regex translator for the R obligations. Strings longer than the stated bound are "
+             "outside the claim; for R obligations the claim is for strings of every length over characters up to U+2FFFF.", ref="DESIGN.md section 3 C09"),
+    "C17": dict(
+        technique="CrossHair: opaque-token store binds, symbolic strings through the namespace trie / split_uri / is_ncname; manager histories shape-symbolic",
+        text="Partial claim: Memory/SimpleMemory.bind keep prefix<->namespace a consistent two-way map for every history of <=3 binds "
+             "(thorough 4) over opaque symbolic tokens; insert_trie/get_longest_namespace return the longest inserted namespace for "
+             "symbolic strings (<=2-3 namespaces); split_uri/is_ncname on every string up to length 3 (thorough 4) over a stated alphabet. "
+             "NamespaceManager.bind x qname/curie/compute_qname interleavings (the stale-memo scenario) only with symbolic flags and "
+             "pool indices (enumeration; supplement).",
+        note="Trusted base: CrossHair 0.0.110's model of Python str/int (counterexamples are replayed outside CrossHair; it has a known "
+             "unsoundness around negative slice bounds on symbolic strings), z3, the %s/str.format shims, the reference decoders/matchers "
+             "written from the W3C/XSD grammars, the regex translator for the R obligations. Strings longer than the stated bound are "
+             "outside the claim; for R obligations the claim is for strings of every length over characters up to U+2FFFF.", ref="DESIGN.md section 3 C17"),
 }
 
 NA = {
-    "C03": "check not built yet in this commit (planned: engine K term-text kernels)",
     "C06": "document-level quad round trips run json/expat/regex scanners over text built from term contents; contents cannot be symbolic (C-level str.__new__), leaving only membership booleans = enumeration, not solver-based checking",
-    "C07": "check not built yet in this commit (planned: engines K + R, n3 text forms only)",
-    "C09": "check not built yet in this commit (planned: engines K + R)",
     "C12": "every parser keys its blank-node label map on text extracted by regex/SAX/JSON; a symbolic label is realised by that extraction (probe: no verdict in 300 s), what remains is a boolean 'same label or not'",
     "C14": "canonicalisation hashes n3() strings with SHA-256 (C code) before its first structural branch, realising every symbolic input; the interesting inputs are boolean structures",
     "C16": "result codecs are json/expat/csv (C) and a pyparsing grammar over term contents that cannot be symbolic; remaining symbolic inputs are bound/unbound booleans",
-    "C17": "check not built yet in this commit (planned: engines S + K)",
     "C20": "property is about HTTP round trips and the meaning of generated SPARQL text, which needs pyparsing on that text; all symbolic data is realised at n3()/socket/JSON boundaries",
 }
 
